@@ -112,6 +112,19 @@ def outer_first(eqs, order):
     return False
 
 
+def term_depth(t):
+    best = 0
+    stack = [(t, 1)]
+    while stack:
+        x, d = stack.pop()
+        if d > best:
+            best = d
+        if x[0] == 'c':
+            for a in x[2]:
+                stack.append((a, d + 1))
+    return best
+
+
 def expected(vs, eqs):
     s = {}
     for a, b in eqs:
@@ -225,6 +238,7 @@ def run_case(ctx, seed, idx, tier):
         vmap = {}
         robs = [build_real(yp, v, vmap) for v in vs]
         held = []
+        mid_assert = rng.random() < 0.35
         try:
             for i in order:
                 g = iter(E.unify(build_real(yp, eqs[i][0], vmap), build_real(yp, eqs[i][1], vmap)))
@@ -233,6 +247,9 @@ def run_case(ctx, seed, idx, tier):
                     next(g)
                 except StopIteration:
                     return viol({'kind': 'unify_failed', 'detail': {'equation': i}})
+                if mid_assert and rng.random() < 0.4:
+                    yp.assert_fact(yp.atom('mid'), [rng.choice(robs)])
+                    c['side_goals_in_the_middle'] = 1
             try:
                 tp_at = [None if has_partial_list(e) else E.to_python(v) for v, e in zip(robs, exp)]
             except Exception as ex:
@@ -251,6 +268,20 @@ def run_case(ctx, seed, idx, tier):
     else:
         c['compiled_cases'] = 1
         goals = [goal_for(rng, eqs[i][0], eqs[i][1]) for i in order]
+        if rng.random() < 0.35:
+            # something else looks at the half-bound terms in the middle of the binding sequence: an assert of a
+            # variable's current value, a findall over it, a meta-call - none of which may disturb what is read later
+            for _ in range(rng.choice([1, 2])):
+                mv = rng.choice(vs)
+                k = rng.random()
+                if k < 0.5:
+                    mid = ('call', C(rng.choice(['assertz', 'asserta']), C('mid', mv)))
+                elif k < 0.75:
+                    mid = ('call', C('findall', mv, C('eq', mv, mv), V('Mid%d' % len(goals))))
+                else:
+                    mid = ('call', C('once', C('eq', mv, V('Mid%d' % len(goals)))))
+                goals.insert(rng.randrange(len(goals) + 1), mid)
+            c['side_goals_in_the_middle'] = 1
         head = C('t', *vs)
         clauses = list(HELPERS) + [(head, gen.conj(goals))]
         if mode == 'findall':
@@ -336,6 +367,9 @@ def run_case(ctx, seed, idx, tier):
             finally:
                 real.clock.stop()
         except RecursionError:
+            if max(term_depth(e) for e in exp) < 100:
+                # (never seen on the unchanged tree: terms this shallow need nowhere near 1000 frames)
+                return viol({'kind': 'recursion_error_on_shallow_terms', 'detail': {'depth': max(term_depth(e) for e in exp)}})
             return {'c': c, 'nt': False, 'key': None, 'discard': 'recursion'}
         except Exception as ex:
             return viol({'kind': 'exception:' + type(ex).__name__, 'detail': str(ex)[:200]})
